@@ -413,6 +413,21 @@ HAND: list[tuple[str, dict[str, str], str]] = [
         "{% macro mm pa %}{{ args }}{{ kwargs.extra }}{{ pa }}{% endmacro %}{% call mm 1, 2, extra: s %}{{ args }}"),
         "row.html": "[{{ row }}{{ it2 }}{{ forloop.index }}/{{ forloop.length }}]",
         "inc.html": "({{ inc }}{{ z }}{{ forloop.index }})"}, "index"),
+    ("shared-base-names", {"pages/index": (
+        "{% render 'cards/item' %}{% render 'rows/item' %}{% include 'item' %}{% render 'a/b/item.liquid' %}"
+        "{% render 'item.liquid' %}{% include 'item.html' %}{% render 'snippets/index' %}{% include 'cards/item' %}"
+        "{% render 'item' %}"),
+        "cards/item": "{{ s | upcase }}{% assign v1 = n %}", "rows/item": "{{ title | downcase }}{% cycle m, lim %}",
+        "item": "{{ who | append: s }}{% if flag %}{{ ok }}{% endif %}",
+        "a/b/item.liquid": "{{ xs | join: title }}{% increment c1 %}",
+        "item.liquid": "{{ words | first }}{% unless show %}{{ h.a.b }}{% endunless %}",
+        "item.html": "{{ items | size }}{% capture tmp %}{{ page.title }}{% endcapture %}",
+        "snippets/index": "{{ user.name | capitalize }}{% echo h.idx %}"}, "pages/index"),
+    ("shared-base-names-parents", {"index.html": (
+        "{% extends 'layouts/v2/base.html' %}{% block main %}{{ s }}{{ block.super }}{% endblock %}"),
+        "layouts/v2/base.html": "{% extends 'layouts/base.html' %}{% block main %}{{ title | upcase }}{{ block.super }}{% endblock %}",
+        "layouts/base.html": "{{ who }}{% block main %}{{ n | plus: m }}{% endblock %}{% render 'snippets/index.html' %}",
+        "snippets/index.html": "{{ lim | minus: 1 }}"}, "index.html"),
     ("implicit-lookups", {"index": (
         "{{ 'Hello %(who)s' | t }}{{ 'Bye %(you)s' | t: you: s }}{{ 'x' | gettext }}")}, "index"),
 ]
@@ -447,6 +462,9 @@ HAND_EXPLICIT = {"v1", "v2", "tmp", "i", "x", "row", "el", "it", "idx", "e", "pa
 # The probes' verdicts always go to the evidence; their clause violations (if any) become
 # violations of the run only when this is True.
 PROBE_CLAUSE_VIOLATIONS_REPORTED = True
+# Probes whose (genuine) clause violations on the unchanged tree await the fix / known-finding
+# decision: recorded in the evidence, not yet reported.  Empty this set once decided.
+PROBES_PENDING_DECISION = {"10"}
 
 # (n, what the seeding agent says, templates, root, data) -- checked on the unchanged tree; the
 # verdicts go to the evidence (set `probe_results`, notes), see SCOPE_MISMATCH_IS_VIOLATION
@@ -474,13 +492,33 @@ PROBES: list[tuple[str, str, dict[str, str], str, dict[str, Any], set[str]]] = [
     ("7b", "default alias: literal name with a dotted directory ('sub.d/card.html' binds `card`, analysis binds `sub`)",
      {"t": "{% render 'sub.d/card.html' with p %}", "sub.d/card.html": "{{ card }}{{ sub }}"}, "t",
      {"p": 1, "card": "G", "sub": "G"}, {"card"}),
+    ("10", "root loaded as 'pages/index' is named 'index': a different partial 'index' is skipped as already seen",
+     {"pages/index": "{{ a }}{% render 'index' %}", "index": "{{ b | upcase }}{% assign c = 1 %}"}, "pages/index",
+     {"a": 1, "b": "x"}, {"c"}),
     ("9", "seen keyed by name only: include then render of the same partial",
      {"t": "{% assign x = 1 %}{% include 'a' %}{% render 'a' %}", "a": "{{ x }}"}, "t", {"x": "G"}, {"x"}),
 ]
 
 
+def _probe_nested_root(ctx: Ctx) -> None:
+    """`{{ [a.b] }}`: under which key / string is a path whose root is itself a path filed?"""
+    from liquid2.shopify import Environment
+
+    src = "{{ [a.b] }}"
+    t = Environment().from_string(src)
+    a = t.analyze()
+    rows = [(k, list(v.segments), str(v), src[v.span.start:v.span.end]) for k, vs in a.variables.items() for v in vs]
+    bad = [(k, sv, text) for k, segs, sv, text in rows if isinstance(segs[0], list) and (k != text or sv != text)]
+    verdict = (f"span text and segments are right, but the entry is filed under key {bad[0][0]!r} and str(Variable) "
+               f"== {bad[0][1]!r} while its span covers {bad[0][2]!r}; variables() == {t.variables()!r}, "
+               f"variable_paths() == {sorted(t.variable_paths())!r}") if bad else "key and string equal the span text"
+    ctx.seen("probe_results", f"(11) root-level nested path {src}: {verdict}")
+    ctx.note(f"probe (11) {src}: {verdict}")
+
+
 def _probes(spec: dict[str, Any], ctx: Ctx) -> None:
     chk = MON.Checker(ctx)
+    _probe_nested_root(ctx)
     for n, label, templates, root, data, binders in PROBES:
         case = {"templates": templates, "root": root, "dynamic": False, "binders": sorted(binders),
                 "datasets": [data], "loader": "dict", "features": ["probe:" + n]}
@@ -495,7 +533,7 @@ def _probes(spec: dict[str, Any], ctx: Ctx) -> None:
             verdict += " | clause violations: " + ", ".join(sorted(set(viol)))
         ctx.seen("probe_results", f"({n}) {label}: {verdict}")
         ctx.note(f"probe ({n}) {label}: {templates} data={data}: {verdict}")
-        if res and PROBE_CLAUSE_VIOLATIONS_REPORTED:
+        if res and PROBE_CLAUSE_VIOLATIONS_REPORTED and n not in PROBES_PENDING_DECISION:
             report(ctx, case, res, ["probe", n])
 
 
